@@ -197,6 +197,9 @@ def check(case):
                         if it[1] != n:
                             raise PropertyViolation("iterator", "step %d: iterator stopped after %d of %d residues" % (step, it[1], n))
                         break
+                    except Exception as exc:     # noqa: BLE001
+                        raise PropertyViolation("iterator", "step %d: resuming an iterator at residue %d raised %s: %s"
+                                                % (step, it[1], type(exc).__name__, str(exc)[:200]))
                     if it[1] >= n:
                         raise PropertyViolation("iterator", "step %d: iterator yields more than %d residues" % (step, n))
                     same(res, it[1], "step %d iterator" % step)
